@@ -88,9 +88,10 @@ def run(c, a):
     # (6) conversion and unification: the converted value, the type list handed to Unify and the input types are re-read
     #     after the calls (rule C20.Immutable in the C08 / C09 trace specs; only C20.* rules are verdicts here)
     rt, asm = c.rule_text, c.assumptions
-    import checks.c08, checks.c09
-    checks.c08.run(c, a)
-    checks.c09.run(c, a)
+    import importlib
+    for fam in ["c08", "c09", "c15", "c16"] + (["c10", "c19", "c18"] if thorough else []):
+        c.note("re-read family", fam)
+        importlib.import_module("checks." + fam).run(c, a)
     c.rule_text, c.assumptions = rt, asm
     # (4) copy isolation of mutable helper sets
     from checks import c03, c19
